@@ -409,6 +409,10 @@ func (s *State) Get(key string, sort *Sort) *Term {
 	if t, ok := s.m[key]; ok {
 		return t
 	}
+	if strings.HasPrefix(key, "DEFER$") {
+		// "this defer statement has been executed": false on every path that did not pass it
+		return False
+	}
 	return entryVar(key, sort)
 }
 
